@@ -22,7 +22,7 @@ def site_function(spans, loc):
     best = None
     for k, v in spans.items():
         if k.startswith("site::") and v["file"] == f and v["lines"][0] <= ln <= v["lines"][1]:
-            best = k.rsplit("::", 1)[-1]
+            best = k.rsplit("::", 1)[-1].split("@")[0]
     return best or f
 
 
@@ -49,7 +49,8 @@ def classify(o, windows):
     c = o["cfg"]
     lp = f64_of_hex(c["pump"]["wavelength_nm"])
     ls = f64_of_hex(c["signal"]["wavelength_nm"])
-    w = windows.get(c["crystal"]["kind"])
+    # an expression crystal has no window of its own; the stream's expressions are BBO_1's Sellmeier formula
+    w = windows.get("BBO_1" if c["crystal"]["kind"] == "Expr" else c["crystal"]["kind"])
     lam = [lp, ls]
     if c["idler"] != "auto":
         lam.append(f64_of_hex(c["idler"]["wavelength_nm"]))
@@ -104,9 +105,19 @@ def oracle(ctx, obs, spans, windows):
         # signal.theta_external(crystal at the placeholder angle) -- the quantity optimum_theta feeds into its cost function --
         # is itself non-finite on this input; a panic in the same function on any other input is a different defect
         orc = o["shadow"]["oracles"]
-        ext_nonfinite = "snell_ext" in orc and orc["snell_ext"] is None
+        ext_nonfinite = "snell_ext" in orc and orc["snell_ext"] is None and not orc.get("index_panics")
         internal = sig_internal(o)
-        cause = "signal_le_pump" if k["ls_le_lp"] else ("nan_cost" if fn == "nelder_mead_1d" and ext_nonfinite else "other")
+        # likewise "crystal_expression_unevaluable": the crystal's own public index function (CrystalType::get_indices at the
+        # signal wavelength) panics for this configuration's crystal
+        index_panics = bool(orc.get("index_panics"))
+        # which of the two searches panicked: the last step of the shadow construction
+        steps = o["shadow"]["steps"]
+        search = {"optimum_theta": "crystal_angle", "optimum_poling_period": "poling_period"}.get(steps[-1]["step"] if steps else "", "none")
+        period_nan = search == "poling_period" and (orc.get("dkz0") is None or bool(orc.get("nm_period_cost_nan")))
+        cause = ("signal_le_pump" if k["ls_le_lp"] else
+                 "crystal_expression_unevaluable" if index_panics and o["cfg"]["crystal"]["kind"] == "Expr" else
+                 "nan_cost" if fn == "nelder_mead_1d" and search == "crystal_angle" and ext_nonfinite else
+                 "nan_cost_period_search" if fn == "nelder_mead_1d" and period_nan else "other")
         if internal:
             angle = "internal_beyond_tir" if ext_nonfinite else "internal"
         else:
@@ -116,7 +127,7 @@ def oracle(ctx, obs, spans, windows):
             ctx.violation("S5", f"try_as_spdc panics ({r['loc']}: {r['msg'][:100]}) for a window-valid configuration [{combo}, "
                           f"signal {k['ls']} nm, pump {k['lp']} nm, signal angle {angle}]; the property requires Ok or Err",
                           {"kind": "panic", "site": fn, "cause": cause, "theta": "auto" if k["theta_auto"] else "explicit",
-                           "signal_angle": angle}, detail)
+                           "signal_angle": angle, "search": search}, detail)
         if r["class"] == "ok" and r["nonfinite"]:
             zero_period = o["cfg"]["pp"] != "off" and o["cfg"]["pp"]["period_um"] != "auto" and f64_of_hex(o["cfg"]["pp"]["period_um"]) == 0.0
             cause = "zero_period" if zero_period else ("waist_position_infinite" if set(r["nonfinite"]) <= {"zs", "zi"} else "other")
@@ -155,7 +166,8 @@ def oracle(ctx, obs, spans, windows):
                 ctx.violation("S5", f"spectrum/rate/HOM call panics on a successfully constructed setup: {msg[:120]} at {calls.get('loc')}",
                               {"kind": "calls_panic", "site": site_function(spans, calls.get("loc", "")), "cause": cause}, dict(detail, calls=calls))
             elif calls["inside_window"] and calls["nonfinite"]:
-                cause = "all_zero_jsa" if calls.get("jsa_all_zero") else ("zero_coincidence_counts" if f64_of_hex(calls["cc"]) == 0.0 else "other")
+                # the observed cause: the coincidence rate over the grid is exactly 0 (an identically zero JSA is the extreme case)
+                cause = "zero_coincidence_counts" if f64_of_hex(calls["cc"]) == 0.0 else "other"
                 ctx.violation("S5", f"non-finite {calls['nonfinite']} from a successfully constructed setup on an in-window grid"
                               + (" (the coincidence JSA integrates to 0 on the grid: 0/0 in the rate normalisation)" if cause != "other" else ""),
                               {"kind": "calls_nonfinite", "what": ",".join(calls["nonfinite"]), "cause": cause}, dict(detail, calls=calls))
@@ -287,6 +299,13 @@ def correspondence(ctx, obs, spans, units, label="C17"):
             continue
         orc = o["shadow"]["oracles"]
         r = o["real"]
+        if orc.get("index_panics"):
+            # outside the model: its refractive-index oracle is a total function; a crystal whose own public index function
+            # panics (expression with an unbound name) is judged by S5 alone (finding F7g)
+            ctx.count("outside_model:index_function_panics")
+            if r["class"] != "panic":
+                ctx.count("outside_model:unevaluable_crystal_" + r["class"])   # no index needed on this path (everything explicit)
+            continue
         real = "None"
         if r["class"] == "ok":
             real = f"(Some {cc.spdc_term(r['setup'])})"
